@@ -330,7 +330,7 @@ package protocol
 //@ // that the metadata AEAD tag authenticates; a server returns a segment only after
 //@ // some cipher block decrypted its metadata, and never a segment flagged as replay.
 //@ func (u *PacketUnderlay) readOneSegment() (seg *segment, addr net.Addr, err error)
-//@   property C05
+//@   property C05 C02
 //@   mode int
 //@   partial
 //@   posts_only
@@ -339,6 +339,9 @@ package protocol
 //@   preserves ghost(wr), ghost(dsent)
 //@   requires u != nil
 //@   assert_call ReplayCache.IsDuplicate: len(arg0) == 16 && baseof(arg0) == baseof(b) && len(b) >= 48
+//@   // the receive buffer holds any datagram a peer may legally send: the largest MTU the
+//@   // configuration accepts is 1500 (C02: a truncated datagram is dropped at every retransmission)
+//@   assert_call net.PacketConn.ReadFrom: len(arg0) >= 1500
 //@   assert_at "return seg, addr, nil": u.isClient || (!isNewSessionReplay && blockCipher != nil)
 //@   ensures seg != nil && !old(u.isClient) ==> seg.block != nil
 //@   loop 1:
@@ -498,3 +501,13 @@ package protocol
 //@   property C05
 //@ struct nocall StreamUnderlay.readOneSegment : StreamUnderlay.writeWithPossibleFragment
 //@   property C05
+//@
+//@ // The replay caches live as long as the process (C06): they are created once, during
+//@ // package initialisation, and nothing in this package empties or replaces them - what
+//@ // they have seen is forgotten only by the rotation inside IsDuplicate.
+//@ struct callers replay.ReplayCache.Clear = {}
+//@   property C06
+//@ struct writers_global streamReplayCache = {init}
+//@   property C06
+//@ struct writers_global packetReplayCache = {init}
+//@   property C06
